@@ -1,4 +1,6 @@
 pub mod c01;
+pub mod c02;
+pub mod c03;
 
 use crate::report::Report;
 use crate::util::Cfg;
@@ -6,6 +8,8 @@ use crate::util::Cfg;
 pub fn run_prop(id: &str, cfg: &Cfg, rep: &mut Report) -> bool {
     match id {
         "C01" => c01::run(cfg, rep),
+        "C02" => c02::run(cfg, rep),
+        "C03" => c03::run(cfg, rep),
         _ => return false,
     }
     true
